@@ -124,9 +124,10 @@ Fixpoint args_eqb (a b : list (list (option nat))) : bool :=
 Fixpoint insert_by (key : nat -> nat) (x : nat) (xs : list nat) : list nat :=
   match xs with
   | [] => [x]
-  | y :: t => if key x <? key y then x :: y :: t else y :: insert_by key x t
+  | y :: t => if key x <=? key y then x :: y :: t else y :: insert_by key x t
   end.
-(** [list.sort(key=...)]: stable *)
+(** [list.sort(key=...)]: stable ([fold_right] inserts the later elements first, so an
+    element goes before the already inserted ones of equal key) *)
 Definition stable_sort (key : nat -> nat) (xs : list nat) : list nat :=
   fold_right (insert_by key) [] xs.
 Definition prodZl (l : list Z) : Z := fold_left Z.mul l 1%Z.
@@ -568,17 +569,15 @@ Definition generate_preamble_sample (sequence_number : Z) : rres run :=
 (** the candidate of a key: preamble ++ rounds ++ leftover, then
     [fill_in_nonpreamble_uncrossed_derived] *)
 Definition decode_with (k : key) : rres run :=
+  (* generate_random_samples builds every piece first; __sample then combines *)
   r0 <-- generate_preamble_sample (k_pre k) ;;;
-  r1 <-- fold_left (fun acc c =>
-                      r <-- acc ;;;
-                      tvs <-- generate_trial_values c (eb_csize eb) (en_memo en) ;;;
-                      combine_round r (experiment_of tvs))
-                   (k_rounds k) (ROk r0) ;;;
-  r2 <-- match k_left k with
-         | None => ROk r1
-         | Some c => tvs <-- generate_trial_values c (en_leftover en) (en_lmemo en) ;;;
-                     combine_round r1 (experiment_of tvs)
+  rs <-- rmap (fun c => tvs <-- generate_trial_values c (eb_csize eb) (en_memo en) ;;; ROk (experiment_of tvs))
+              (k_rounds k) ;;;
+  ls <-- match k_left k with
+         | None => ROk []
+         | Some c => tvs <-- generate_trial_values c (en_leftover en) (en_lmemo en) ;;; ROk [experiment_of tvs]
          end ;;;
+  r2 <-- fold_left (fun acc rnd => r <-- acc ;;; combine_round r rnd) (rs ++ ls) (ROk r0) ;;;
   fill_in_derived r2 (eb_sorted_ucd eb) (Z.to_nat (eb_preamble eb)) (fl_trials fb).
 
 (** ** all candidate keys, in lexicographic order of the draws *)
@@ -648,7 +647,8 @@ Fixpoint sequential_loop (fuel : nat) (row : list (option nat)) (nl pre su i : n
     | S k =>
       if nl =? 0 then RErr ZeroDivisionError
       else x <-- of_opt IndexError (nth_error row i) ;;;
-           if is_level x ((i - pre) mod nl) then sequential_loop k row nl pre su (i + su) else ROk false
+           if su =? 0 then RErr ZeroDivisionError
+           else if is_level x (((i - pre) / su) mod nl) then sequential_loop k row nl pre su (i + su) else ROk false
     end
   else ROk true.
 
